@@ -150,7 +150,7 @@ Definition write_through (p : list byte) (w : writer) : (N * option werror) * wr
     else
       let h0 := mkHeader false 0 (w_opcode w) false zero_mask (Z.of_N (len p)) in
       match set_bits (w_exts w) h0 with
-      | None => ((0, Some WExt), w)
+      | None => ((0, Some WExt), set_dest_err w (w_dest w) (Some WExt) (w_masks w))  (* the error is kept: later writes report it *)
       | Some h1 =>
         let '(key, masks') := if client_side (w_state w) then take_mask w else (zero_mask, w_masks w) in
         let h := if client_side (w_state w)
@@ -262,11 +262,11 @@ Fixpoint read_from_loop (fuel : nat) (s : src) (total : N) (w : writer)
 Definition read_from (s : src) (w : writer) : (wpanic + (N * option werror)) * writer * src :=
   read_from_loop (S (S (2 * length (flat s) + 4))) s 0 w.
 
-(* Reset(dest, state, op): err is not cleared by the source code *)
+(* Reset(dest, state, op): everything but the raw buffer is as after construction *)
 Definition reset_writer (d : dest) (state op : N) (w : writer) : wpanic + writer :=
   let off := reserve state (w_rawlen w) in
   if w_rawlen w <=? off then inl PBufTooSmall
-  else inr (mkW d state op [] false (w_rawlen w) (w_rawlen w - off) [] false 0 (w_err w) (w_masks w)).
+  else inr (mkW d state op [] false (w_rawlen w) (w_rawlen w - off) [] false 0 None (w_masks w)).
 Definition reset_op (op : N) (w : writer) : writer :=
   mkW (w_dest w) (w_state w) op (w_exts w) (w_noflush w) (w_rawlen w) (w_buflen w) []
       false 0 (w_err w) (w_masks w).
@@ -439,7 +439,8 @@ Fixpoint aligned_at_ops (steps : list wstep) (log : list (list byte)) : bool :=
    data that fits the buffer leaves as one frame; with flushing disabled plain
    writes emit nothing *)
 Fixpoint walk_history (steps : list wstep) (msgs : list (list pframe))
-         (pending : bool) (acc : list byte) (calls_before size_start : N) (plain : bool) (noflush : bool)
+         (pending : bool) (acc : list byte) (calls_before size_start : N) (plain : bool)
+         (noflush : bool) (nf_msg : bool (* flushing was disabled before this message began *))
   : option (list (list pframe) * list byte) :=
   match steps with
   | [] => Some (msgs, acc)
@@ -451,28 +452,28 @@ Fixpoint walk_history (steps : list wstep) (msgs : list (list pframe))
         match msgs with
         | m :: ms =>
           if bytes_eqb (msg_payload m) acc
-             && (if plain && ((len acc <=? size_start) || noflush) then len m =? 1 else true)
-          then walk_history r ms false [] (o_calls o) (o_size o) true noflush
+             && (if plain && ((len acc <=? size_start) || nf_msg) then len m =? 1 else true)
+          then walk_history r ms false [] (o_calls o) (o_size o) true noflush noflush
           else None
         | [] => None
         end
-      else if o_calls o =? calls_before then walk_history r msgs false [] (o_calls o) (o_size o) true noflush
+      else if o_calls o =? calls_before then walk_history r msgs false [] (o_calls o) (o_size o) true noflush noflush
       else None
     | WWrite _ =>
       match accepted_of st with
       | Some a =>
         if noflush && negb (o_calls o =? calls_before) then None
-        else walk_history r msgs true (acc ++ a) (o_calls o) size_start plain noflush
+        else walk_history r msgs true (acc ++ a) (o_calls o) size_start plain noflush nf_msg
       | None => None
       end
     | WReadFrom _ _ | WWriteThrough _ =>
       match accepted_of st with
-      | Some a => walk_history r msgs true (acc ++ a) (o_calls o) size_start false noflush
+      | Some a => walk_history r msgs true (acc ++ a) (o_calls o) size_start false noflush nf_msg
       | None => None
       end
-    | WDisableFlush => walk_history r msgs pending acc (o_calls o) size_start plain true
-    | WFlushFragment | WGrow _ => walk_history r msgs pending acc (o_calls o) size_start false noflush
-    | _ => walk_history r msgs pending acc (o_calls o) size_start plain noflush
+    | WDisableFlush => walk_history r msgs pending acc (o_calls o) size_start plain true (if pending then nf_msg else true)
+    | WFlushFragment | WGrow _ => walk_history r msgs pending acc (o_calls o) size_start false noflush nf_msg
+    | _ => walk_history r msgs pending acc (o_calls o) size_start plain noflush nf_msg
     end
   end.
 
@@ -490,7 +491,7 @@ Definition c06_monitor (client : bool) (op : N) (compressed : bool) (size0 : N)
     aligned_at_ops steps log
     && forallb (msg_frames_ok client op compressed true) msgs
     && msg_frames_ok client op compressed true tailf
-    && match walk_history steps msgs false [] 0 size0 true false with
+    && match walk_history steps msgs false [] 0 size0 true false false with
        | Some ([], acc) =>
          (* the open message: frames already sent + what is still buffered *)
          bytes_eqb (msg_payload tailf) (take (len acc - last_buffered steps) acc)
@@ -520,9 +521,27 @@ Fixpoint after_failure (steps : list wstep) (failed : bool) (calls_at_fail : N) 
       | _ => after_failure r false 0
       end
   end.
+(* what reached the peer is a PREFIX of a frame stream: whole frames followed by
+   at most one frame cut short by the failed write — never a hole *)
+Fixpoint frames_prefix_ok (fuel : nat) (bs : list byte) : bool :=
+  match bs with
+  | [] => true
+  | _ =>
+    match fuel with
+    | O => false
+    | S f =>
+      match rfc_parse bs with
+      | PComplete h rest =>
+        let n := Z.to_N (h_len h) in
+        if len rest <? n then true else frames_prefix_ok f (drop n rest)
+      | PIncomplete => true
+      | PMsb => false
+      end
+    end
+  end.
 Definition c16w_monitor (steps : list wstep) (log : list (list byte)) : bool :=
   after_failure steps false 0
-  && (match frames_of (concat log) with Some _ => true | None => false end).
+  && frames_prefix_ok (S (length (concat log))) (concat log).
 
 (* C08: whatever is written to a control writer, the destination receives
    nothing or one final frame of at most 125 payload bytes; a write that would
